@@ -6,7 +6,7 @@ NOTES = ("Static analysis only: every check re-extracts a typed AST + CFG of the
 ENGINES = [
     {"name": "tlxir", "path": "tools/tlxir.cc", "serves_properties": ["C15"],
      "kind_free_text": "clang LibTooling extractor: typed AST with resolved callees, template instantiations, clang CFG -> JSON"},
-    {"name": "engine A (order abstraction / decision tables)", "path": "engine/dtable.py", "serves_properties": ["C15"],
+    {"name": "engine A (order abstraction / decision tables)", "path": "engine/dtable.py", "serves_properties": ["C15", "C09"],
      "kind_free_text": "comparator-network extraction + zero-one principle; decision tables over comparison atoms"},
 ]
 
@@ -24,5 +24,17 @@ CLAIMS = {
           "Sizes above 16 (abort) are outside the property."),
  ),
 }
+
+CLAIMS["C09"] = dict(
+    level="other",
+    technique="static analysis: decision tables extracted from the instantiated AST of the replay loops / init_winner, enumerated over all weak-order-consistent atom valuations; idiom rules on loop ranges and stores",
+    text=("Decides the local decisions of all eight loser-tree classes completely: REPLAY-TABLE (swap required when the stored loser is "
+          "strictly smaller in (exhausted,key[,source]), forbidden when the challenger is), REPLAY-FIELDS (no mixed player), INIT-TABLE "
+          "(ties to the lower index, loser stored), REPLAY-PATH (leaf parent -> root, slot 0 receives all fields), MIN-SOURCE, PADDING "
+          "(all leaves beyond ik_ exhausted/sentinel), SWITCH-AGREE (copy variant iff sizeof<=2 words). These are necessary conditions of "
+          "the property for every player count and history; the history-level tournament invariant follows by the usual induction, which "
+          "is stated, not machine-checked."),
+    note=(TRUST + "Not decided: the inductive tournament invariant over whole histories; behaviour of unguarded trees when a player runs out (outside the contract)."),
+)
 
 NOT_APPLICABLE = {}
